@@ -17,6 +17,7 @@ import (
 	"unicode"
 
 	"github.com/glyphlang/glyph/pkg/ast"
+	"github.com/glyphlang/glyph/pkg/interpreter/zzverifalt"
 	"github.com/glyphlang/glyph/pkg/parser"
 )
 
@@ -42,6 +43,7 @@ func (p *vProbe) Expire(key string, seconds int) bool         { p.rec("Expire");
 func (p *vProbe) Incr(key string, by float64) float64         { p.rec("Incr"); return by }
 func (p *vProbe) InsertMany(docs []interface{}) error         { p.rec("InsertMany"); return nil }
 func (p *vProbe) UpdateOne(f, u map[string]interface{}) error { p.rec("UpdateOne"); return nil }
+func (p *vProbe) Aggregate(stages []map[string]interface{}) error { p.rec("Aggregate"); return nil }
 func (p *vProbe) Filter(col string, v interface{}) []interface{} {
 	p.rec("Filter")
 	rows := []interface{}{"a", int64(1), []interface{}{int64(1)}, map[string]interface{}{"a": int64(1)}}
@@ -79,14 +81,18 @@ func TestVerifProviderMethods(t *testing.T) {
 		case reflect.Interface:
 			return "any"
 		case reflect.Slice:
+			if t.Elem().Kind() != reflect.Interface {
+				return "typedslice"
+			}
 			return "slice"
 		case reflect.Map:
 			return "map"
 		}
 		return "any"
 	}
-	pt := reflect.TypeOf(&vProbe{})
 	var out []map[string]interface{}
+	var altLog []string
+	for prov, pt := range []reflect.Type{reflect.TypeOf(&vProbe{}), reflect.TypeOf(zzverifalt.New(&altLog))} {
 	for i := 0; i < pt.NumMethod(); i++ {
 		m := pt.Method(i)
 		if m.Name == "Table" {
@@ -101,7 +107,8 @@ func TestVerifProviderMethods(t *testing.T) {
 			params = append(params, kindOf(pt))
 		}
 		out = append(out, map[string]interface{}{"name": m.Name, "params": params, "variadic": m.Type.IsVariadic(),
-			"allowed": allowedMethods[m.Name], "fragile": m.Name == "Filter"})
+			"allowed": allowedMethods[m.Name], "fragile": m.Name == "Filter" && prov == 0, "prov": prov})
+	}
 	}
 	f, _ := os.Create(os.Getenv("VERIF_OUT"))
 	defer f.Close()
@@ -132,13 +139,14 @@ func vpSpell(name, how string) string {
 }
 
 var vpLit = map[string]string{"null": "null", "int": "7", "float": "2.5", "string": `"s"`, "bool": "true",
-	"array": `[1, "x"]`, "object": `{a: 1}`}
+	"array": `[1, "x"]`, "object": `{a: 1}`, "arraynull": `[{a: 1}, null]`}
 
 type vpCase struct {
 	ID   int `json:"id"`
 	Call struct {
 		M struct {
 			Name string `json:"name"`
+			Prov int    `json:"prov"`
 		} `json:"m"`
 		Spelling string   `json:"spelling"`
 		Form     string   `json:"form"`
@@ -191,7 +199,13 @@ func TestVerifProviderReplay(t *testing.T) {
 		}
 		src := "@ GET /p {\n  % db: Database\n  $ r = " + expr + "\n  > {done: true}\n}\n"
 		var log []string
-		probe := &vProbe{log: &log}
+		var probe interface{} = &vProbe{log: &log}
+		if cs.Call.M.Prov == 1 {
+			probe = zzverifalt.New(&log)
+			if cs.Call.Form == "nested" || cs.Call.Form == "freenested" {
+				continue // the second provider has no tables
+			}
+		}
 		got := ""
 		func() {
 			defer func() {
@@ -234,6 +248,10 @@ func TestVerifProviderReplay(t *testing.T) {
 		switch {
 		case strings.HasPrefix(got, "panic"):
 			bad = "crash: " + got
+		case cs.Outcome == "either":
+			if !((invoked == cs.Call.M.Name && got == "ok") || (invoked == "" && strings.HasPrefix(got, "error"))) {
+				bad = fmt.Sprintf("want %s invoked once and a value, or nothing reached and an error; invoked=[%s] result=%s", cs.Call.M.Name, invoked, got)
+			}
 		case cs.Outcome == "invoked":
 			if invoked != cs.Call.M.Name || got != "ok" {
 				bad = fmt.Sprintf("want %s invoked once and a value; invoked=[%s] result=%s", cs.Call.M.Name, invoked, got)
